@@ -229,11 +229,20 @@ def isNoPathFallback (orth : Bool) (r : List P2) : Bool :=
   | [a, b] => orth && a.x != b.x && a.y != b.y
   | _ => false
 
+/-- with checkpoints the search runs leg by leg; when the last leg (checkpoint → target) finds no
+    path libavoid appends the dummy target and clips it again, so route() stops at a checkpoint
+    while the target end is attached to a pin / junction -/
+def stopsAtCheckpoint (c : ConnRec) (r : List P2) : Bool :=
+  match c.dst, r.getLast? with
+  | .free _, _ => false
+  | _, some q => c.cps.any (· == q)
+  | _, none => false
+
 /-- connectors of this step whose orthogonal route() is the no-path fallback although every
     attached pin class has capacity (class no-path: a routing failure, C03/C05 territory) -/
 def noPathConns (s : St) (og : List ((Nat × Nat) × List EndObs)) : List Nat :=
   (s.conns.filter (fun c => match lookup s.cur.routes c.id with
-    | some r => isNoPathFallback c.orth r && (overOf og c.id).isEmpty
+    | some r => (isNoPathFallback c.orth r || stopsAtCheckpoint c r) && (overOf og c.id).isEmpty
     | none => false)).map (·.id)
 
 def checkEnds (s : St) : St := Id.run do
@@ -242,7 +251,7 @@ def checkEnds (s : St) : St := Id.run do
   let og := overGroups s groups0
   let np := noPathConns s og
   for c in np do
-    s := gated s "no-path" s!"step {s.stepNo}: orthogonal connector {c}: route() is the straight no-path fallback although free pins exist"
+    s := gated s "no-path" s!"step {s.stepNo}: connector {c}: route() is the no-path fallback (straight dummy line / stops at a checkpoint) although free pins exist"
   let groups := groups0.map (fun g => (g.1, g.2.filter (fun e => !np.contains e.conn)))
   for ((sh, cls), allEnds) in groups do
     let pins := groupPins s sh cls
@@ -257,7 +266,9 @@ def checkEnds (s : St) : St := Id.run do
             | some p0 => pins.any (fun p => p.pos == p0)
             | none => false)).length
           if onPin < cap then
-            s := { s with fails := s!"step {s.stepNo}: (shape {sh}, class {cls}) has {cap} exclusive pins and {allEnds.length} attached ends but only {onPin} ends sit on pins in {which}" :: s.fails }
+            let msg := s!"step {s.stepNo}: (shape {sh}, class {cls}) has {cap} exclusive pins and {allEnds.length} attached ends but only {onPin} ends sit on pins in {which}"
+            if which == "displayRoute()" && allEnds.any (·.hyper) then s := gated s "hyper-disp" msg
+            else s := { s with fails := msg :: s.fails }
     else
       let ends := allEnds.filter (fun e => (overOf og e.conn).isEmpty)
       -- model state machine for this (shape, class): all pins free at the start of the transaction
@@ -383,11 +394,13 @@ def feed (s : St) (l : Array String) : St :=
   | "endstep" => endStep s
   | "assert" =>
     -- a COLA_ASSERT of the library failed during this case (thrown as vpsc::CriticalFailure)
-    let msg := s!"step {s.stepNo + 1}: library assertion failed: {l[1]!}"
-    if (l[1]!.splitOn "freeSegmentID").length > 1 then
-      -- class nudge-assert: nudgeOrthogonalRoutes' debug-only check of the unsatisfied ranges
-      gated s "nudge-assert" msg
-    else { s with fails := msg :: s.fails }
+    -- (C15 territory, not a clause of C11: class lib-assert. Seen on the unchanged tree:
+    --  `vs[it->second]->id != freeSegmentID` orthogonal.cpp:3041 (nudging, debug-only check) and
+    --  `orthogonalDirectionsCount(thisDirs) > 0` makepath.cpp:938.)
+    gated (bump s (if (l[1]!.splitOn "freeSegmentID").length > 1 then "assert.freeSegmentID"
+                   else if (l[1]!.splitOn "orthogonalDirectionsCount").length > 1 then "assert.orthogonalDirectionsCount"
+                   else "assert.other"))
+      "lib-assert" s!"step {s.stepNo + 1}: library assertion failed: {l[1]!}"
   | _ => s
 
 def numericKeys : List String := ["box", "pinpos", "jpos", "route", "disp", "pin", "shape", "junction", "cps"]
